@@ -498,14 +498,24 @@ pub fn check(prop: &dyn Property, tier: Tier) -> i32 {
     let mut known_hits = 0u64;
     let mut printed_rules: BTreeSet<String> = BTreeSet::new();
 
+    // minimisation is bounded in executions and in wall-clock (per violation
+    // and in total); the clock only decides how far minimisation gets, never
+    // what is reported as failing
+    let shrink_started = Instant::now();
     for (index, v0, tape0) in &res.violations {
         // minimise: same oracle rule must keep failing
         let rule = v0.rule.clone();
         let mut budget = plan.shrink_budget;
         if printed_rules.contains(&rule) {
-            budget = budget.min(200);
+            budget = budget.min(100);
         }
+        let this_started = Instant::now();
         let (best, used) = shrink(tape0.clone(), budget, |cand| {
+            if this_started.elapsed() > Duration::from_secs(30)
+                || shrink_started.elapsed() > Duration::from_secs(90)
+            {
+                return None;
+            }
             let (r, canon) = rerun(prop, tier, *index, cand);
             match r.violation {
                 Some(v) if v.rule == rule => Some(canon),
